@@ -170,6 +170,14 @@ Example C10_nonvacuous_session :   (* valid L2STS; a node moves to a third site:
   = [Ok; Err ETopology; Ok].
 Proof. exact example_session. Qed.
 
+Example C10_nonvacuous_reconnect :  (* declared site 1: valid; emptied: too few interfaces; reconnected at site 2: site
+                                       mismatch; reconnected at site 1: valid *)
+  map snd (session (ex_bridge [1%N]) [Validate; Mutate (fun _ => ex_bridge []); Validate;
+                                      Mutate (fun _ => ex_bridge [2%N]); Validate;
+                                      Mutate (fun _ => ex_bridge [1%N; 1%N]); Validate])
+  = [Ok; Err ETopology; Err ETopology; Ok].
+Proof. exact example_reconnect. Qed.
+
 Example C10_nonvacuous_invalid :
   snd (validate_cur (mk_slice [] [mk_asvc "L2PTP" None []
         [mk_if "ServicePort" None (Some [mk_ep "SharedPort" (Some (Some 1%N))]);
